@@ -199,6 +199,47 @@ theorem remove_clears_links {l : List Nat} {h : Heap} (hR : Rep l h) {n : Nat} (
 
 example := remove_clears_links demo_rep (n := 0) (by simp)
 
+/-- **What `Clear` does to the nodes it drops** (audit C06-F2; the reading of "removed" made a theorem instead of a
+sentence). `Clear` — its three regenerated statements `l.front = nil; l.back = nil; l.size = 0` — writes the list
+header only: the result represents the empty sequence, and *every* node keeps exactly the links and the value it had.
+So each node dropped by `Clear` still names its former neighbours: in a list of two or more nodes the former first
+node keeps its `Next`, the former second its `Prev`. "A removed node has neither neighbour" therefore holds for the
+nodes taken out by `Remove` (`remove_clears_links`, `history_refines`) and is **false** for the nodes dropped by
+`Clear` — the wider reading of the sentence is refuted for the code as it is, for every list with at least two nodes,
+not assumed away. (Such a handle is not a node of the list any more, so no well-formed history can pass it to an
+operation; an unlinking `Clear` would be O(n). If `xlist.go` ever unlinks in `Clear`, this theorem stops compiling
+and `history_refines` can be stated for `Clear` as well.) -/
+theorem clear_keeps_links_of_dropped_nodes {l : List Nat} {h : Heap} (hR : Rep l h) :
+    let r := apply h .clear
+    Rep [] r.h ∧
+    (∀ x, prevOf r.h x = prevOf h x ∧ nextOf r.h x = nextOf h x ∧ valueOf r.h x = valueOf h x) ∧
+    (∀ a b rest, l = a :: b :: rest → nextOf r.h a = some b ∧ prevOf r.h b = some a) := by
+  have hI := inv_of_rep hR
+  obtain ⟨_, _, h3, h4, _⟩ := clear_spec hI
+  have hsame : ∀ x, prevOf (apply h .clear).h x = prevOf h x ∧ nextOf (apply h .clear).h x = nextOf h x ∧
+      valueOf (apply h .clear).h x = valueOf h x := by
+    intro x; simp [prevOf, nextOf, valueOf, h4]
+  refine ⟨rep_of_inv h3, hsame, ?_⟩
+  intro a b rest hl
+  subst hl
+  have hne : a ≠ b := by
+    have := hI.linked.nodup
+    simp only [List.nodup_cons, List.mem_cons, not_or] at this
+    exact this.1.1
+  have ha : a ∈ a :: b :: rest := by simp
+  have hb : b ∈ a :: b :: rest := by simp
+  refine ⟨?_, ?_⟩
+  · rw [(hsame a).2.1, nextOf_live (hI.linked.live a ha), hI.linked.next a ha]; simp [nextIn]
+  · rw [(hsame b).1, prevOf_live (hI.linked.live b hb), hI.linked.prev b hb]; simp [prevIn]
+
+/-- the concrete instance the audit gave: `PushBack 1; PushBack 2; Clear` — a well-formed history after which node 0
+still has node 1 as `Next` and node 1 still has node 0 as `Prev`. -/
+example : let h := (runP {} [.pushBack 1, .pushBack 2, .clear]).1
+    HistWF [] 0 [.pushBack 1, .pushBack 2, .clear] ∧ nextOf h 0 = some 1 ∧ prevOf h 1 = some 0 := by
+  refine ⟨by simp [HistWF, Op.wellFormed], by decide, by decide⟩
+
+example := (clear_keeps_links_of_dropped_nodes demo_rep).2.2 3 0 [2] rfl
+
 /-- **Values are never touched** and **handles keep their identity**: after any well-formed
 operation every node that existed still exists with the value it had, a created node carries exactly
 the value given and a new identity, and the nodes that are neither in the list nor created by the
